@@ -25,10 +25,18 @@ Definition iter_items (m : ubehav) (iv : value) : outcome (list value) :=
   match iv with
   | VList l => Ok l
   | VStr _ t => Ok (map (fun ch => VStr false [ch]) t)     (* a string iterates over its characters, in every mode *)
+  | VMap kvs => Ok (map fst kvs)                           (* a map iterates over its keys, in every mode *)
   | VUndef => if u_strictish m then Err E_UndefinedError else Ok []
   | VSilent => Ok []
   | _ => Err E_InvalidOperation
   end.
+
+(* Value::get_item / get_attr as the subscript and attribute sites use them (Interp.eval, EItem / EAttr): the
+   component if there is one - list index, map key, loop field -, else the mode's answer for a missing one *)
+Definition item_result (m : ubehav) (x k : value) : outcome value :=
+  match get_item_opt x k with Some v => Ok v | None => u_handle_undefined m (is_undef x) end.
+Definition attr_result (m : ubehav) (x : value) (a : name) : outcome value :=
+  match get_attr_opt x a with Some v => Ok v | None => u_handle_undefined m (is_undef x) end.
 
 (* the check of the `~` operator (vm/mod.rs::StringConcat); other binary operators have none *)
 Definition bin_check (m : ubehav) (op : binop) (x y : value) : outcome unit :=
@@ -41,19 +49,35 @@ Definition bin_check (m : ubehav) (op : binop) (x y : value) : outcome unit :=
 Definition U : name := 100.
 Definition X : name := 101.
 
+(* attribute names / string keys "a", "b", "k" (Syntax.attr_str, tools/langenc.py::attr_id) *)
+Definition a_a : name := 1097.
+Definition a_b : name := 1098.
+Definition a_k : name := 1107.
+Definition K1 : expr := EMap [(EConst (LStr [107]), EConst (LInt 1))].         (* {"k": 1} *)
+
 Inductive site := PrintSite | IterSite | TruthSite | AttrSite | ItemSite
-                | IsDefinedSite | IsUndefinedSite | DefaultSite.
+                | IsDefinedSite | IsUndefinedSite | DefaultSite
+                (* maps: a key the map does not have is an undefined like any other; the map and what it has are defined *)
+                | MapMissingAttrSite | MapMissingItemSite | MapMissingIterSite | MapMissingChainSite
+                | MapKeySite | MapIterSite | MapInSite.
 
 Definition probe (s : site) : list stmt :=
   match s with
   | PrintSite => [SEmit (EVar U)]                                             (* {{ u }} *)
   | IterSite => [SFor (TVar X) (EVar U) None [SRaw [120]] None false]         (* {% for x in u %}x{% endfor %} *)
   | TruthSite => [SIf [(EVar U, [SRaw [97]])] (Some [SRaw [98]])]             (* {% if u %}a{% else %}b{% endif %} *)
-  | AttrSite => [SEmit (EAttr (EVar U) 99)]                                   (* {{ u.a }} *)
+  | AttrSite => [SEmit (EAttr (EVar U) a_a)]                                  (* {{ u.a }} *)
   | ItemSite => [SEmit (EItem (EVar U) (EConst (LInt 0)))]                    (* {{ u[0] }} *)
   | IsDefinedSite => [SEmit (ETest T_defined (EVar U) [] false)]              (* {{ u is defined }} *)
   | IsUndefinedSite => [SEmit (ETest T_undefined (EVar U) [] false)]          (* {{ u is undefined }} *)
   | DefaultSite => [SEmit (EFilter F_default (EVar U) [EConst (LInt 1)])]     (* {{ u|default(1) }} *)
+  | MapMissingAttrSite => [SEmit (EAttr K1 a_a)]                              (* {{ {"k": 1}.a }} *)
+  | MapMissingItemSite => [SEmit (EItem K1 (EConst (LStr [97])))]             (* {{ {"k": 1}["a"] }} *)
+  | MapMissingIterSite => [SFor (TVar X) (EAttr K1 a_a) None [SRaw [120]] None false]   (* {% for x in {"k": 1}.a %}x{% endfor %} *)
+  | MapMissingChainSite => [SEmit (EAttr (EAttr K1 a_a) a_b)]                 (* {{ {"k": 1}.a.b }} *)
+  | MapKeySite => [SEmit (EAttr K1 a_k)]                                      (* {{ {"k": 1}.k }} *)
+  | MapIterSite => [SFor (TVar X) K1 None [SEmit (EVar X)] None false]        (* {% for x in {"k": 1} %}{{ x }}{% endfor %} *)
+  | MapInSite => [SEmit (ECmp (EConst (LStr [97])) [(CIn, K1)])]              (* {{ "a" in {"k": 1} }} *)
   end.
 
 Inductive cell := Fails (code : Z) | Yields (out : list Z) | NoAnswer.
